@@ -239,6 +239,9 @@ func c08Addr(i int) common.Address {
 }
 
 func c08MakeWorkload(seed int64, idx int, H int) *c08Workload {
+	if idx >= 100 {
+		return c08MakeLagWorkload(seed, idx, H)
+	}
 	w := &c08Workload{H: H}
 	nAddr := 5
 	for i := 0; i < nAddr; i++ {
@@ -934,6 +937,7 @@ func c08ChainOracle(c *Ctx, base string) {
 func c08Oracles(c *Ctx, base string) {
 	c08BeansOracle(c, base)
 	c08ChainOracle(c, base)
+	c08LagOracle(c, base)
 }
 
 var _ = hex.EncodeToString
